@@ -66,7 +66,8 @@ def system_level(chk, sd, g):
     binp = pc.build_lbsim(sd)
     ws, stats = vlib.walks(g, max_len=120)
     scripts = []
-    for variant in ("peer", "xff"):
+    # xffmapped / xffnat64: client addresses written as IPv6 with an embedded dotted quad (IPv4-mapped, NAT64)
+    for variant in ("peer", "xff", "xffmapped", "xffnat64"):
         for j, w in enumerate(ws):
             cf = w["cf"]
             steps, rid = [], 0
@@ -77,6 +78,12 @@ def system_level(chk, sd, g):
                     if variant == "xff":
                         st["client"] = "10.9.9.9"
                         st["hdr"] = {"X-Forwarded-For": "203.0.113.%d, 10.9.9.9" % a["c"]}
+                    elif variant == "xffmapped":
+                        st["client"] = "10.9.9.9"
+                        st["hdr"] = {"X-Forwarded-For": "::ffff:192.0.2.%d" % a["c"]}
+                    elif variant == "xffnat64":
+                        st["client"] = "10.9.9.9"
+                        st["hdr"] = {"X-Real-IP": "64:ff9b::198.51.100.%d" % a["c"]}
                     st["c"] = a["c"]
                     steps.append(st)
                 else:
@@ -105,7 +112,7 @@ def system_level(chk, sd, g):
     mp = os.path.join(sd, "limsys.mapped.ndjson")
     vlib.write_ndjson(mp, out)
     chk.cov["traces_validated_against_impl"] += len(scripts)
-    chk.cov["replayed_transitions_system_level"] = stats["transitions"] * 2
+    chk.cov["replayed_transitions_system_level"] = stats["transitions"] * 4
     viols, pr = vlib.observe("ObsLimiterTrace", "ObsLimiterTrace.cfg", mp)
     chk.add_tlc("P:LimiterObs over balancer-level replay", pr)
     for v in viols:
